@@ -554,6 +554,14 @@ def xdh_one(env, st, s, theirs, ours, what):
                 exp = x32 + ell_a + ell_b
             st.count("xdh-ok")
             st.nt(("xdh", s, theirs))
+            if name in ("bip324", "prefix") and party in (0, 1):
+                # the exported hash function is also callable directly (from a caller's own callback, say): same bytes
+                dout = buf(b"\x5a" * 32)
+                dr = XDH_FN(fp)(dout, exact(x32), exact(ell_a), exact(ell_b), env.data)
+                st.calls += 1
+                if dr != 1 or dout.raw != exp:
+                    st.fail("the exported hash function secp256k1_ellswift_xdh_hash_function_%s called directly differs from its definition" % name,
+                            dict(info, got=hx(dout.raw), model=hx(exp)))
             if ret != 1 or out.raw != exp:
                 st.fail("ellswift_xdh output differs from hash(X(secret*decode(theirs)), ell_a, ell_b)",
                         dict(info, got=hx(out.raw), model=hx(exp), model_x=hx(x32)))
